@@ -115,7 +115,7 @@ CLAIMED = {
          "PRISM.__init__ writes only its copies): step_isolated, later_edits_do_not_reach_prism and reachable_inv (induction over ARBITRARY operation sequences: no cell owned by an existing PRISM object ever "
          "changes, System references and PRISM-owned cells stay disjoint), snapshot_wiring_values (with C15's invariants: closure sigma = (d_a+d_b)/2, omega scaled by rho_a / rho_a+rho_b), create_does_not_write_system (the System's meaning absSys is unchanged by createPRISM), sweep_equals_fresh (the PRISM created after any "
          "history is createPRISM of the System's current meaning), create_refused_iff, explicit_sigma_kept (an explicitly given sigma, also 0, is used as it is), create_cells_agree and prism_objects_always_agree (every PRISM object, at every moment of every history, holds in its private potential / closure objects exactly what its value-level state says, so what an existing object computes cannot change through later System operations), step_abs and history_refines_spec (REFINEMENT: under the abstraction absSys every store-level history is the corresponding history of the plain value-level System, for arbitrary operation lists), and the negation witness aliased_create_changes_system for the variant that iterates the caller's table. The store model "
-         "runs in the driver and is compared after EVERY operation of random edit/create/solve histories with the hidden object state of the real System and of every PRISM object created so far (histories include in-place edits of the System's Domain object, one-statement group assignments, setUnset, ONE object assigned pair by pair, evaluations of the System's own omega objects by the user, several PRISM objects per System); every existing PRISM object must also evaluate its self-consistency function bit-identically after every later System operation; the wiring statement is also evaluated independently on every new PRISM object.",
+         "runs in the driver and is compared after EVERY operation of random edit/create/solve histories with the hidden object state of the real System and of every PRISM object created so far (histories include in-place edits of the System's Domain object, one-statement group assignments, setUnset, ONE object assigned pair by pair, evaluations of the System's own omega objects by the user, several PRISM objects per System); every existing PRISM object must also evaluate its self-consistency function bit-identically after every later System operation; the wiring statement is also evaluated independently on every new PRISM object; after every converged solve the unedited System is solved a second time and must give the identical result and remain unchanged (no state carried from one solve to the next).",
          "4 C16", "Lean 4 proof (decision logic + object-store invariant by induction over operation histories) + differential correspondence"),
  'C17': ("Lean theorems at formula level (Model/UnitConv.lean): kelvin_formula/linear, celsius_offset (K - 273.15) and celsius_affine, inv_angstrom_formula/linear, inv_nanometer_is_ten_inv_angstrom, "
          "concentration_formula/linear (rho*/(d_c^3 N_A) in mol/L), volume_fraction_formula (rho* (4/3) pi (d/2)^3 = rho* pi d^3/6) and linear, elementwise. The Lean content is small and said to be small: "
